@@ -55,6 +55,24 @@ def ft(x, y, z, *, t, c=0.75):
     return AMP[0] * (c + 0.05 * x + 0.2 * t + 0 * z)
 
 
+# "twins" of the leaf functions: same signature, same keyword defaults, the same shape of code -- they differ from the
+# original only in a name they refer to (another numpy function), in a constant, or in the VALUE of a keyword argument
+def f2_twin_name(x, y, a=1.5):
+    return AMP[0] * (a + np.sin(0.25 * x) - 0.5 * y)
+
+
+def f2_twin_name2(x, y, a=1.5):
+    return AMP[0] * (a + np.cos(0.25 * x) - 0.5 * y)
+
+
+def f3_twin_const(x, y, z, b=2.0):
+    return AMP[0] * (b + 0.1 * x * y + 0.35 * z)
+
+
+def ft_twin_name(x, y, z, *, t, c=0.75):
+    return AMP[0] * (c + 0.05 * x + 0.2 * t + 0 * y)
+
+
 LEAVES = ["P2", "P3", "PT", "I", "F"]
 
 
@@ -119,10 +137,19 @@ def buildable(t):
     return buildable(t[1]) and buildable(t[2]) and not (is_number(t[1]) and is_number(t[2]))
 
 
-def build(t):
+def build(t, swap=None):
     if isinstance(t, str):
-        return mk_leaf(t)
-    return OPS[t[0]][1](build(t[1]), build(t[2]))
+        return swap[t]() if swap and t in swap else mk_leaf(t)
+    return OPS[t[0]][1](build(t[1], swap), build(t[2], swap))
+
+
+# for each parameter leaf kind: (label, maker of a different leaf, maker of ANOTHER different leaf to compare it with)
+TWINS = {
+    "P2": [("other function (same code shape, another numpy name)", lambda: Parameter(f2_twin_name, a=1.5), lambda: Parameter(f2_twin_name2, a=1.5)),
+           ("other keyword value", lambda: Parameter(f2, a=1.5000001), None)],
+    "P3": [("other function (same code shape, another constant)", lambda: Parameter(f3_twin_const, b=2.0), None)],
+    "PT": [("other function (same code shape, another argument name)", lambda: Parameter(ft_twin_name, c=0.75, time_dependent=True), None)],
+}
 
 
 def oracle(t, leaves, x, y, z, tt):
@@ -228,6 +255,18 @@ def check_tree(ctx, t, dev_solve=None, with_model_lines=None):
             other = (t[0] ^ 1 if t[0] < 4 else 0, t[1], t[2])
             if buildable(other) and (p == build(other)):
                 fail("eq-structural", f"{show(t)} compares equal to {show(other)}")
+        # the same tree over a DIFFERENT leaf (another function of the same shape, another keyword value) is a different
+        # expression; two different such leaves differ from each other as well
+        def leafset_(u):
+            return {u} if isinstance(u, str) else leafset_(u[1]) | leafset_(u[2])
+        for kind in sorted(leafset_(t) & set(TWINS)):
+            for label, mk1, mk2 in TWINS[kind]:
+                q1 = build(t, {kind: mk1})
+                if p == q1 or q1 == p:
+                    fail("eq-structural:different-leaf", f"{show(t)} compares equal to the same tree with the {kind} leaf replaced by a different one: {label}")
+                if mk2 is not None and (q1 == build(t, {kind: mk2})):
+                    fail("eq-structural:different-leaf", f"{show(t)}: two trees over two different {kind} leaves compare equal: {label}")
+                ctx.count("eq_different_leaf_checks")
     except Exception as e:  # noqa
         fail(f"eq:{type(e).__name__}", f"comparing {show(t)} raised {type(e).__name__}: {e}")
     # cache clearing is total ...
